@@ -15,7 +15,7 @@ def gen_reorg(rng, n, tier):
     hs = []
     for _ in range(n):
         r = _r.Random(rng.getrandbits(64))
-        g = gen_exec.ExecGen(r, focus="single", audit=False, price=1)
+        g = gen_exec.ExecGen(r, focus="single", audit=False, price=1, hub=False)
         for _ in range(r.randint(3, 6)):
             g.block()
             g.observe()
